@@ -577,14 +577,17 @@ func confuse(s *g, n *Node) *Node {
 
 var spec = pbt.Spec[Case]{
 	ID: prop,
-	Rule: "generated: well-typed expression trees of depth 1-4 over columns a,b (int/float64/NULL/absent per row, b non-zero), s,u (text/NULL/absent), f (bool), n (NULL), m (absent), " +
-		"numeric and text literals, + - * / (divisor non-zero literal or b), comparisons, AND/OR/NOT, parentheses, searched and simple CASE with/without ELSE, IS [NOT] NULL on columns, " +
-		"calls from a typed table of deterministic built-ins; each rendered as SELECT item, parenthesised SELECT item, WHERE, CASE WHEN .. THEN 1 ELSE 0 END, and function argument; histories of 2-6 rows " +
-		"through instance A and, interleaved in a drawn order, through instance B with the same SQL text, starting from empty process-wide expression caches. " +
-		"Oracle: reference interpreter (float64 arithmetic, Kleene logic collapsed to not-true at WHERE/WHEN, NULL-propagating arithmetic, first-true CASE branch, documented function values; " +
-		"Execute() of the registered function as definition where the guide states no convention) for every context, every row, both instances; A and B agree per row. " +
-		"Separate classes: ill-typed expressions and direct function calls with hostile arguments (error or NULL, never a panic; SQL call agrees with Execute). " +
-		"non-trivial = depth>=2 and one of {NULL/absent operand, int and float mixed, CASE, function, NOT}; distinct = hash of the case JSON",
+	Rule: "generated: well-typed expression trees of depth 1-4 over columns a,b (int/float64/NULL/absent per row, b non-zero), s,u (text/NULL/absent), f (bool/NULL/absent), n (NULL), m (absent); " +
+		"numeric and text literals (plain and operator/keyword-bearing), + - * / (divisor non-zero literal or b), unary minus, comparisons (= == != < <= > >=), AND/OR/NOT in upper or lower case, parentheses, " +
+		"searched and simple CASE with/without ELSE, IS [NOT] NULL on columns, column-vs-literal comparisons and flat AND/OR chains of them (WHERE fast-path shapes), calls from a typed table of 55 signatures of 51 deterministic built-ins " +
+		"(names in lower case or with an initial capital); column values aimed at the literals of the expression. Each expression is rendered as SELECT item, parenthesised SELECT item, WHERE, " +
+		"CASE WHEN .. THEN 1 ELSE 0 END, and argument of abs/floor/if_null/coalesce/upper/length/concat; histories of 2-6 rows through instance A and, interleaved in a drawn order, through instance B with the same SQL text, " +
+		"starting from empty process-wide expression caches. Oracle: reference interpreter (float64 arithmetic, int/float mixing, Kleene logic collapsed to not-true at WHERE/WHEN, NULL-propagating arithmetic, " +
+		"first-true CASE branch else ELSE else NULL, documented function values; Execute() of the registered function as definition where the guide states no convention) for every context, every row, both instances; " +
+		"A and B agree per row. Separate classes: ill-typed expressions (no panic; same value on both instances) and direct calls of every registered deterministic scalar function with in-domain and hostile arguments " +
+		"(NULL, wrong kinds, NaN, +-Inf, huge, empty, arrays, maps): error or NULL but never a panic, documented value in-domain, algebraic laws, SQL call agrees with Execute. " +
+		"Shapes of open findings are avoided by construction (context left out / tree rewritten), counted in counters excl:<shape>. " +
+		"non-trivial = depth>=2 and one of {NULL/absent operand, int and float mixed, CASE, function, NOT}, or a direct function call with arguments; distinct = hash of the case JSON",
 	Assumptions: []string{
 		"a statement rejected at Execute, or routed to the aggregation path (EmitSync error), is outside the accepted domain: counted, not reported",
 		"each case starts from empty bridge caches (reset through reflection), so the history in the case is the whole history",
